@@ -294,6 +294,40 @@ def run_unit(unit, tier="quick", seeds=None):
     vr = out["verification-results"]
     errs = [d for d in diags if d.get("level") == "error" and not d["message"].startswith("aborting due to")]
     # compile/type errors, unsupported constructs, rlimit => undecided
+    errs = [d for d in diags if d.get("level") == "error" and not d["message"].startswith("aborting due to")]
+    # a query that ran out of its resource limit is retried alone with a 10x limit (a failing proof often exhausts
+    # the default limit before Z3 can name the failed assertion): the retry either discharges the function, names
+    # the failed obligation, or stays out of resources (then: undecided)
+    rl = [d for d in errs if re.search(r"Resource limit \(rlimit\) exceeded", d["message"])]
+    if rl and not vr.get("encountered-vir-error") and not [d for d in errs if d.get("code")]:
+        retried = {}
+        for d in rl:
+            prim = [s_ for s_ in d["spans"] if s_.get("is_primary")]
+            it_ = item_at(meta, prim[0]["line_start"]) if prim and os.path.basename(prim[0]["file_name"]) == os.path.basename(gen) else None
+            if it_ is None:
+                retried = None
+                break
+            short = it_["name"].split("#")[-1]
+            mm_ = re.fullmatch(r"<(\w+) as (\w+)>::(\w+)", short)
+            if mm_:
+                short = mm_.group(3)
+            retried[short] = it_
+        if retried:
+            futs_ = {k: _ex.submit(run_verus, gen, (ucfg.get("verus_args") or []) + ["--rlimit", "100", "--num-threads", "1"], 900,
+                                   ("*" + k if "::" in k else "*::" + k), "6") for k in retried}
+            res["rlimit_retries"] = []
+            keep = [d for d in errs if d not in rl]
+            for k, fu in futs_.items():
+                rc2, out2, diags2, err2, wall2, cmd2 = fu.result()
+                errs2 = [d for d in diags2 if d.get("level") == "error" and not d["message"].startswith("aborting due to")]
+                okv = out2 is not None and out2.get("verification-results", {}).get("success")
+                res["rlimit_retries"].append({"function": k, "wall_s": round(wall2, 1), "verified": bool(okv), "errors": len(errs2)})
+                if okv:
+                    continue
+                keep += errs2 if errs2 else [d for d in rl if retried.get(k) is not None][:1]
+            errs = keep
+            if not errs:
+                vr = dict(vr, success=True)
     hard = [d for d in errs if d.get("code") or classify(d["message"]) is None or UNDECIDED_PAT.search(d["message"])]
     if vr.get("encountered-vir-error") or hard or (not vr.get("success") and not errs):
         msg = "; ".join(d["message"] for d in hard[:3]) or "verus error without diagnostics"
